@@ -63,14 +63,16 @@ theorem C10_next_only_after_failure (c : Ctx) (s : St) (obs : List Obs) (d : Dag
     oneofWake c s obs d head cand rest sub below = oneofTry c d head below s obs rest := by
   simp [oneofWake, oneofDone, he]
 
-/-- trying a candidate opens exactly that candidate and starts exactly one task: its sub-DAG -/
+/-- trying a candidate opens exactly that candidate and starts exactly one task: its sub-DAG; nodes of that sub-DAG that
+a restart of a recurrent subgraph has invalidated are hidden first, so that a result from before the restart is not taken
+for the candidate's (`St.refresh`; without a restart it changes nothing, `refresh_of_nil`) -/
 theorem C10_try_opens_one_candidate (c : Ctx) (d : DagRef) (head : Node) (below : List Frame) (s : St)
     (obs : List Obs) (cand : Node) (rest : List Node) (sub : DagRef)
     (hr : reducedRef c.P (openCand s true cand) c.P.g.input cand false true true = some sub)
-    (hw : oneofDone (spawn (openCand s true cand) [.dagInit sub] .dag).1 cand sub = false) :
+    (hw : oneofDone (spawn ((openCand s true cand).refresh sub.nodes) [.dagInit sub] .dag).1 cand sub = false) :
     oneofTry c d head below s obs (cand :: rest) =
-      block c (spawn (openCand s true cand) [.dagInit sub] .dag).1
-        (obs ++ [.spawn (openCand s true cand).tasks.length .dag])
+      block c (spawn ((openCand s true cand).refresh sub.nodes) [.dagInit sub] .dag).1
+        (obs ++ [.spawn ((openCand s true cand).refresh sub.nodes).tasks.length .dag])
         (.oneofWait d head cand rest sub :: below) (.cond (.node cand)) := by
   simp [oneofTry, hr, hw]
 
